@@ -190,11 +190,19 @@ func (d *digest) UnmarshalBinary(b []byte) error {
 	}
 	b, d.c[0] = consumeUint64(b)
 	b, d.c[1] = consumeUint64(b)
-	d.size = int(b[0])
+	size := int(b[0])
+	if size < 1 || size > Size {
+		return errors.New("crypto/blake2b: invalid hash state size field")
+	}
 	b = b[1:]
 	copy(d.block[:], b[:BlockSize])
 	b = b[BlockSize:]
-	d.offset = int(b[0])
+	offset := int(b[0])
+	if offset > BlockSize {
+		return errors.New("crypto/blake2b: invalid hash state offset field")
+	}
+	d.size = size
+	d.offset = offset
 	return nil
 }
 
